@@ -38,7 +38,9 @@ def class_source(c, classes):
     # meta_base: the Meta class derives from the Meta of another generated class and inherits input_tasks and parameters
     # from it (the case spells them out for the model and the reference; the source leaves them to inheritance)
     inherits = c.get('meta_base') is not None
-    lines = [f"class {c['cname']}(Task):", f"    class Meta({classes[c['meta_base']]['cname']}.Meta):" if inherits else '    class Meta:']
+    # task_base: the task class derives from another generated task class (and has a Meta of its own)
+    parent = classes[c['task_base']]['cname'] if c.get('task_base') is not None else 'Task'
+    lines = [f"class {c['cname']}({parent}):", f"    class Meta({classes[c['meta_base']]['cname']}.Meta):" if inherits else '    class Meta:']
     if c['group']:
         lines.append(f"        task_group = {c['group']!r}")
     if c.get('name'):
@@ -134,6 +136,16 @@ def provenance(task, cid):
         else:
             val = {'__default__': json_safe(t)}
         ins.append([name.split('::')[-1], val])
+    # access by position (self.input_tasks[i], "order is given by order in Meta") names the same inputs as access by name
+    by_name = list(task.input_tasks.values())
+    for idx, t in enumerate(by_name):
+        try:
+            same = task.input_tasks[idx] is t
+        except IndexError:
+            same = False
+        if not same:
+            ins.append(['__position__', f'input {idx} by position is not input {idx} by name'])
+            break
     task.logger.info(f'token:{task.slugname}')
     task.save_to_run_info({'inputs': len(ins), 'run': run_no})
     task.save_to_run_info('second')
